@@ -46,14 +46,26 @@ Proof. intros. apply solo_equiv_for_discipline. exact code_discipline_ok. assump
 (* the classification is not vacuous: each kind of table entry that the mutations of DESIGN section 4 produce is rejected *)
 Example unlocked_get_rejected :
   locked_cache [ {| mm_pkg := "flows/definition"; mm_type := "flowAssets"; mm_method := "Get"; mm_touches := true;
-                    mm_writes := true; mm_lock := LkNone; mm_defer_unlock := false |};
+                    mm_writes := true; mm_lock := LkNone; mm_defer_unlock := false; mm_reads_locked := false; mm_writes_locked := false |};
                  {| mm_pkg := "flows/definition"; mm_type := "flowAssets"; mm_method := "FindByName"; mm_touches := true;
-                    mm_writes := true; mm_lock := LkLock; mm_defer_unlock := true |} ] = false.
+                    mm_writes := true; mm_lock := LkLock; mm_defer_unlock := true; mm_reads_locked := true; mm_writes_locked := true |} ] = false.
 Proof. reflexivity. Qed.
 
-Example missing_defer_rejected :
-  mutex_method_ok {| mm_pkg := "flows/definition"; mm_type := "flowAssets"; mm_method := "Get"; mm_touches := true;
-                     mm_writes := true; mm_lock := LkLock; mm_defer_unlock := false |} = false.
+(* the store after the unlock (or: a write while only the read lock is held) *)
+Example write_outside_exclusive_lock_rejected :
+  mutex_method_ok {| mm_pkg := "flows/definition"; mm_type := "flowAssets"; mm_method := "FindByName"; mm_touches := true;
+                     mm_writes := true; mm_lock := LkRLock; mm_defer_unlock := true; mm_reads_locked := true;
+                     mm_writes_locked := false |} = false.
+Proof. reflexivity. Qed.
+
+(* a correct read/write-lock discipline and helpers called with the lock held are accepted *)
+Example rwmutex_discipline_accepted :
+  locked_cache [ {| mm_pkg := "flows/definition"; mm_type := "flowAssets"; mm_method := "Get"; mm_touches := true;
+                    mm_writes := true; mm_lock := LkRLock; mm_defer_unlock := false; mm_reads_locked := true; mm_writes_locked := true |};
+                 {| mm_pkg := "flows/definition"; mm_type := "flowAssets"; mm_method := "FindByName"; mm_touches := true;
+                    mm_writes := true; mm_lock := LkRLock; mm_defer_unlock := false; mm_reads_locked := true; mm_writes_locked := true |};
+                 {| mm_pkg := "flows/definition"; mm_type := "flowAssets"; mm_method := "cachedByName"; mm_touches := true;
+                    mm_writes := false; mm_lock := LkHeld; mm_defer_unlock := false; mm_reads_locked := true; mm_writes_locked := true |} ] = true.
 Proof. reflexivity. Qed.
 
 Example lazy_global_rejected :
